@@ -86,9 +86,29 @@ func scanFalseSuccs(call *ssa.Call) []*ssa.BasicBlock {
 
 // ruleScannerErr: R7.2 — after Scan() has returned false, no success return without sc.Err().
 func ruleScannerErr(p *Prog, l *Ledger, tier string) {
+	scannerErrIn(p, l, p.ioScope(l, "E7.R7.2-scanner-err"), 3)
+}
+
+// ruleScannerErrTTML: R7.2 for the scanners of the TTML reader (C03/r15): one that runs over a paragraph's text and
+// whose Err() is not consulted drops the rest of a document with a line beyond the token limit.
+func ruleScannerErrTTML(p *Prog, l *Ledger, tier string) {
+	fn := anchor(p, l, "E7.R7.2-scanner-err", "ReadFromTTML")
+	if fn == nil {
+		return
+	}
+	var fns []*ssa.Function
+	for _, f := range p.Closure([]*ssa.Function{fn}) {
+		if fnPkg(f) == p.LibSSA {
+			fns = append(fns, f)
+		}
+	}
+	scannerErrIn(p, l, fns, 0)
+}
+
+func scannerErrIn(p *Prog, l *Ledger, scope []*ssa.Function, min int) {
 	const rule = "E7.R7.2-scanner-err"
 	n := 0
-	for _, fn := range p.ioScope(l, rule) {
+	for _, fn := range scope {
 		fname := FnName(fn)
 		// group Scan calls by receiver value
 		scans := map[ssa.Value][]*ssa.Call{}
@@ -158,7 +178,10 @@ func ruleScannerErr(p *Prog, l *Ledger, tier string) {
 			}
 		}
 	}
-	l.Min(rule, n, 3)
+	if n == 0 && min == 0 {
+		l.Prove(rule, "", rule+"|none", "", fmt.Sprintf("no bufio.Scanner in the %d functions in scope", len(scope)))
+	}
+	l.Min(rule, n, min)
 }
 
 // ruleFlush: R7.3 — buffered sinks created in writers are flushed on every success path.
